@@ -43,13 +43,14 @@ def run(tier, seed):
     behs2, gen2 = Q.simulate(PROP, "sim-byz-leader", nsim // 2, 35, seed + 7, Q.params_of(LeaderOffset=3), MaxRound=2,
                              LeaderOffset=3, ByzBudget=10, ByzActs="AllActs", Macro="FALSE", invariants=INV,
                              workers=4 if tier == "quick" else 12)
-    transitions += gen + gen2
-    res, inp = Q.replay(PROP, behs + behs2, "sim")
+    behs7, gen7, info7 = Q.committee7(PROP, tier, seed + 3, INV)
+    transitions += gen + gen2 + gen7
+    res, inp = Q.replay(PROP, behs + behs2 + behs7, "sim")
     Q.collect(PROP, res, verdict, inp, foreign)
     abehs, stale = Q.attack_behaviours(PROP, tier, PROP)
     ares, ainp = Q.replay(PROP, abehs, "attacks")
     Q.collect(PROP, ares, verdict, ainp, foreign)
-    ncert = sum(1 for b in behs + behs2 for s in b["steps"] if (s["act"] or {}).get("name") in ("RecvDecided", "RecvForgedDecided"))
+    ncert = sum(1 for b in behs + behs2 + behs7 for s in b["steps"] if (s["act"] or {}).get("name") in ("RecvDecided", "RecvForgedDecided"))
 
     selftest = Q.binding_selftest(PROP, behs)
     rc = verdict.report()
@@ -69,10 +70,10 @@ def run(tier, seed):
         "exhaustive": all(c["exhaustive"] for c in configs),
         "detail": {"configs": configs, "attack_traces": [b["id"] for b in abehs], "stale_attacks": stale,
                    "certificate_receptions_replayed": ncert, "divergences": div, "binding_selftest": selftest,
-                   "divergence_samples": res["divergences"][:5], "foreign_signatures_seen": foreign},
+                   "divergence_samples": res["divergences"][:5], "foreign_signatures_seen": foreign, "committee7": info7},
     }
     vlib.write_evidence(PROP, tier, seed, "model_checking", cov, time.time() - t0, [
-        "N=4, f=1, Byzantine operator 4; BLS aggregate verification itself is trusted (herumi)",
+        "exhaustive classes N=4, f=1, Byzantine operator 4; committee 7 (f=2, Byzantine 6 and 7) simulated and replayed; BLS aggregate verification itself is trusted (herumi)",
         "forged kinds enumerated: subQuorum, dupSigner, zeroSigner, foreignSigner, badAggregate, valueNotRoot, "
         "wrongIdentifier, notCommitType",
     ], len(verdict.violations))
